@@ -1101,4 +1101,95 @@ example :
     let s' := (step verifyNewConfirms s (.confirms 2 1 [⟨some 2, 0⟩])).1
     s.headId = 3 ∧ s'.stable.id = 2 ∧ s'.headId = 2 ∧ s'.tree = [] := by decide
 
+
+/-! ## the one Go panic in reach (`needSwitchFork`: `% TwoThirdDeputyCount` with an empty term) never fires:
+    a block is only stored after `verifySigner` found its miner among the deputies, so `n ≥ 1`. -/
+
+theorem forkDecision_ne_none {s : St} {nb : Blk} (hn : 0 < s.n) : forkDecision s nb ≠ none := by
+  have hns : needSwitchFork s (chooseNewFork s.stable s.tree) ≠ none := by
+    unfold needSwitchFork
+    split
+    · simp only
+      split
+      · rename_i h; unfold twoThirds at h; omega
+      · simp
+    · simp
+  unfold forkDecision
+  split
+  · simp
+  split
+  · simp
+  simp only
+  split
+  · rename_i h; exact absurd h hns
+  · simp
+  · simp
+
+theorem saveNewBlock_no_panic {s : St} {b : Blk} (hi : TInv s) (hn : 0 < s.n) : (saveNewBlock s b).2 ≠ "panic" := by
+  unfold saveNewBlock
+  split
+  · simp
+  rename_i s1 hs1
+  obtain ⟨e1, _⟩ := setBlock_spec hi hs1
+  split
+  · simp
+  rename_i s2 ch hus
+  have e2 : (updateStable s1 b).1 = s2 := by rw [hus]
+  have hn2 : 0 < s2.n := by
+    rcases updateStable_cases s1 b with ⟨e, _⟩ | ⟨c, _, _, _, _, e⟩
+    · rw [← e2, e, e1]; exact hn
+    · rw [← e2, e, e1]; exact hn
+  split
+  · rename_i hfd; exact absurd hfd (forkDecision_ne_none hn2)
+  · simp
+
+theorem afterConfirm_no_panic (s1 : St) (nb : Blk) (h : Nat) : (afterConfirm s1 nb h).2 ≠ "panic" := by
+  unfold afterConfirm
+  split
+  · split <;> simp
+  · simp
+
+/-- no operation on a reachable state ends in the Go panic. -/
+theorem no_panic (V : Verifier) (dc n g : Nat) (ops : List Op) (op : Op) :
+    (step V (run V (init dc n g) ops) op).2 ≠ "panic" := by
+  have hi := inv_reachable V dc n g ops
+  generalize run V (init dc n g) ops = s at hi
+  cases op with
+  | block b valid =>
+    show (insertBlock V s b valid).2 ≠ "panic"
+    unfold insertBlock
+    split
+    · simp
+    split
+    · simp
+    split
+    · simp
+    split
+    · simp
+    rename_i hsig
+    split
+    · simp
+    split
+    · simp
+    have h2 : b.miner < s.n := by
+      apply Classical.byContradiction; intro h; exact hsig (Or.inr h)
+    exact saveNewBlock_no_panic hi.toTInv (by omega)
+  | confirms id h sigs =>
+    show (insertConfirms V s id h sigs).2 ≠ "panic"
+    unfold insertConfirms
+    split
+    · simp
+    split
+    · simp
+    split
+    · simp
+    split
+    · simp
+    simp only
+    split
+    · split
+      · simp
+      · cases (V s.n _ sigs).2 <;> simp [CErr.name]
+    · exact afterConfirm_no_panic _ _ _
+
 end LemoProofs.C03
